@@ -79,6 +79,29 @@ def run(repo, rep, tier):
         hs = [unparse(h.type) if h.type is not None else '<bare>' for h in tries[0].handlers]
         rep.check('escape', 'the task catches Exception', any(h in ('Exception', 'BaseException', '<bare>') for h in hs), tries[0], 'task handlers are %s' % hs)
 
+    # the task's catch-all handler formats the target as "%s:%d": the port it was handed must really be an int, or the handler itself raises TypeError
+    # and the exception leaves the pool task.  The port comes from Utils.parse_host_and_port: its declared-int results are checked by a small local type
+    # inference (props/_retypes.py), and the handler's %d operands must be task parameters annotated int.
+    from props import _retypes
+    _nf, _bad = _retypes.text_where_int_declared(repo)
+    rep.floor('escape', 'utility functions with a declared int result', _nf, 3)
+    for _f, _r, _slot, _txt in _bad:
+        rep.check('escape', '%s returns an int where it declares one' % _f._qualname, False, _r,
+                  '%s declares an int result but can return text (%s): target_worker_thread formats its port with %%d inside its catch-all handler, so a str port makes the handler itself raise TypeError, the exception leaves the pool task and the whole multi-target run is aborted' % (_f._qualname, _txt),
+                  stmt='declared int, may be text: %s' % _f._qualname)
+    for _h in [h for t in walk_no_nested(tw) if isinstance(t, ast.Try) for h in t.handlers]:
+        for _n in ast.walk(_h):
+            if isinstance(_n, ast.BinOp) and isinstance(_n.op, ast.Mod) and isinstance(_n.left, ast.Constant) and isinstance(_n.left.value, str):
+                import re as _re
+                specs = _re.findall(r'%[-+ #0]*\d*(?:\.\d+)?([sdiuxXrcfeg%])', _n.left.value)
+                specs = [x for x in specs if x != '%']
+                ops = _n.right.elts if isinstance(_n.right, ast.Tuple) else [_n.right]
+                for sp, op in zip(specs, ops):
+                    if sp in 'diuxX':
+                        k = _retypes.kinds(op, tw)
+                        rep.check('escape', 'handler formats %s with %%%s: operand is an int' % (unparse(op)[:30], sp), k == {'int'}, _n,
+                                  'the task\'s exception handler formats %s with %%%s but it is not known to be an int (%s): a TypeError raised inside the handler leaves the pool task' % (unparse(op), sp, sorted(k)), stmt='handler format operand %s' % unparse(op)[:30])
+
     # ---- rule 2: ranked codes -----------------------------------------------------------------------------------------------
     codes = {k: ce.lookup('exitcodes', k) for k in ('GOOD', 'WARNING', 'FAILURE', 'CONNECTION_ERROR', 'UNKNOWN_ERROR')}
     rl = [n for n in walk_no_nested(mn) if isinstance(n, ast.Assign) and unparse(n.targets[0]) == 'ranked_return_codes']
